@@ -897,7 +897,10 @@ class InlinedExpressionGenMapper(
         assert is_symbolic_index(rec_index)
         res = local_ctx.lookup(expr.aggregate.name).to_loopy_expression(
             rec_index, prstnt_ctx)
-        assert prim.is_arithmetic_expression(res)
+        # Boolean constants (e.g. from full(shape, True)) are valid scalar
+        # expressions, too.
+        assert (prim.is_arithmetic_expression(res)
+                or isinstance(res, (bool, np.bool_)))
         return res
 
     def map_variable(self, expr: prim.Variable,
@@ -916,7 +919,8 @@ class InlinedExpressionGenMapper(
             return expr
         else:
             res = local_ctx.lookup(expr.name).to_loopy_expression((), prstnt_ctx)
-            assert prim.is_arithmetic_expression(res)
+            assert (prim.is_arithmetic_expression(res)
+                    or isinstance(res, (bool, np.bool_)))
             return res
 
     def map_call(self, expr: prim.Call,
